@@ -32,7 +32,7 @@ def REQUIRED(tier):
         for mode in ("pretty", "full"):
             req[f"gen:{g}:{mode}"] = 100
     req.update({"helper:get_rand_vars": 300, "helper:get_rand_vars:expected-ValueError": 10, "helper:split_in_two_random": 300,
-                "helper:get_rand_term_templates": 100, "helper:rand_number:full": 300, "like-promise:checked": 400})
+                "helper:get_rand_term_templates": 100, "helper:rand_number:full": 300, "like-promise:checked": 400, "like-promise:simplify-multiple-terms": 100})
     return req
 
 
@@ -128,7 +128,18 @@ def attach_generators():
             except Exception as e:
                 bad(f"gen/{name}/unparseable", "generated text is rejected by the parser", f"'{text}' -> {type(e).__name__}: {str(e)[:60]}")
                 return
-            if name in PROMISE_LIKE:
+            promised = name in PROMISE_LIKE
+            if name == "gen_simplify_multiple_terms":
+                # "a polynomial problem with like terms that need to be combined": decidable with our
+                # sum-based definition when every operator is additive and no variable may be dropped
+                kw = dict(k)
+                opv = kw.get("op", a[2] if len(a) > 2 else None)
+                ops = opv if isinstance(opv, list) else [opv]
+                optional = kw.get("optional_var", a[1] if len(a) > 1 else False)
+                promised = bool(ops) and all(o in ("+", "-") for o in ops) and not optional
+                if promised:
+                    rec.arm("like-promise:simplify-multiple-terms")
+            if promised:
                 rec.arm("like-promise:checked")
                 try:
                     has = independent_has_like_terms(text)
@@ -280,8 +291,8 @@ def calls(rng):
                                                   powers_probability=r.choice(probs), like_variables_probability=r.choice(probs))
     yield "gen_simplify_multiple_terms", (r.randint(2, 12),), {}
     yield "gen_simplify_multiple_terms", (r.randint(2, 12),), dict(
-        optional_var=r.random() < 0.5, op=r.choice([None, "+", "-", "*", ["+", "-"], ["+", "*"]]), common_variables=r.random() < 0.5,
-        inner_terms_scaling=r.choice([0.1, 0.3, 0.5]), powers_probability=r.choice(probs), optional_var_probability=r.choice(probs),
+        optional_var=r.random() < 0.5, op=r.choice([None, "+", "-", "*", ["+", "-"], ["+", "*"], "+", ["+", "-"]]), common_variables=r.random() < 0.5,
+        inner_terms_scaling=r.choice([0.1, 0.3, 0.5, 0.75, 0.9, 0.95, 0.99]), powers_probability=r.choice(probs), optional_var_probability=r.choice(probs),
         noise_probability=r.choice(probs), shuffle_probability=r.choice(probs), share_var_probability=r.choice(probs),
         grouping_noise_probability=r.choice(probs), noise_terms=r.choice([None, 1, 2, 3, 5]))
     yield "gen_combine_terms_in_place", (), dict(min_terms=r.randint(2, 10), max_terms=r.randint(10, 22), easy=r.random() < 0.5, powers=r.random() < 0.5)
